@@ -23,12 +23,14 @@ gets that defect's specific key; then the behaviours of the faithful model (swit
 too and must conform completely.
 """
 import json
+import random
 import vlib
 
 RUNNER_SIM = {"n": 4, "optional": [2, 3]}
 KEY_H7 = "runner:applied-on-nil-state-cancel"
 KEY_H19 = "runner:older-binary-admitted-with-pending-newer-migration"
 KEY_H15 = "blocktx-migration:rerun-overwrites-migrated-block"
+KEY_H20 = "blocktx-migration:empty-block-left-without-blob"
 
 
 def _keys(res):
@@ -88,6 +90,80 @@ def runner_part(ctx, binary, thorough):
         ctx.coverage["runner_behaviours_faithful_model"] = len(b2)
 
 
+def blocktx_part(ctx, binary, thorough):
+    # 1. TLC: repaired design for EVERY placement of empty blocks; each switch as in the code breaks it
+    ctx.tlc_check("migration", "MCBlockTxMigration.tla", "BlockTx_quick.cfg", timeout=900)
+    r = ctx.tlc_check("migration", "MCBlockTxMigration.tla", "BlockTx_asis_h15.cfg", timeout=600, expect_violation=True)
+    if r["violated"] != "NeverLost":
+        raise vlib.Broken("FixH15 = FALSE should violate NeverLost, TLC says %s" % r["violated"])
+    r = ctx.tlc_check("migration", "MCBlockTxMigration.tla", "BlockTx_asis_h20.cfg", timeout=600, expect_violation=True)
+    if r["violated"] != "Preserved":
+        raise vlib.Broken("FixH20 = FALSE should violate Preserved, TLC says %s" % r["violated"])
+    if thorough:
+        r = ctx.tlc_check("migration", "MCBlockTxMigration.tla", "BlockTx_thorough.cfg", timeout=3000, coverage=True)
+        vlib.require_actions_covered(r)
+
+    # 2. schedules of the repaired design forced onto the real migrator
+    cfgs = ["BlockTx_sim.cfg", "BlockTx_sim23.cfg", "BlockTx_sim58.cfg"]
+    depth = 2500 if thorough else 500
+    def gen(switches, off):
+        out = []
+        for j, cfg in enumerate(cfgs):
+            txt = _asis_cfg(ctx, cfg, switches)
+            out += ctx.tlc_simulate("migration", "BlockTxMigrationMBT.tla", "BlockTx_dyn.cfg", depth=depth,
+                                    seed=ctx.seed * 1000 + off + j, timeout=900, files={"BlockTx_dyn.cfg": txt})
+        return out
+    behaviours = gen([], 0)
+    res = ctx.run_engine(binary, "TestBlockTxReplay", {"behaviours": behaviours}, timeout=1500)
+    ctx.absorb(res, "migration", "TestBlockTxReplay")
+    ctx.coverage["blocktx_behaviours"] = len(behaviours)
+    ctx.coverage["blocktx_steps_replayed"] = res.get("steps", 0)
+    asis = [s for s, k in (("FixH15", KEY_H15), ("FixH20", KEY_H20)) if k in _keys(res)]
+    ctx.coverage["blocktx_switches_as_in_code"] = {"FixH15": "FixH15" not in asis, "FixH20": "FixH20" not in asis}
+    if asis:
+        b2 = gen(asis, 500)
+        res2 = ctx.run_engine(binary, "TestBlockTxReplay", {"behaviours": b2}, timeout=1500)
+        # the faithful model predicts the damage; the projections must conform step by step, the
+        # final accessor sweep reports the damage under the same specific keys
+        ctx.absorb(res2, "migration", "TestBlockTxReplay")
+        ctx.coverage["blocktx_behaviours_faithful_model"] = len(b2)
+        other = _keys(res2) - {KEY_H15, KEY_H20}
+        ctx.coverage["blocktx_faithful_model_conforms"] = not other
+
+
+def shapes(seed, thorough):
+    rnd = random.Random(seed * 7 + 1)
+
+    def rand(n):
+        return [rnd.randint(0, 3) for _ in range(n)]
+
+    out = [{"name": "random-35", "txs": rand(35)}]
+    t = rand(40)
+    t[10:20] = [0] * 10
+    t[30:40] = [0] * 10
+    out.append({"name": "empty-ranges-40", "txs": t})
+    t = rand(27)
+    t[0:12] = [0] * 12
+    out.append({"name": "leading-empty-27", "txs": t})
+    out.append({"name": "short-7", "txs": rand(7)})
+    out.append({"name": "pruned-30", "txs": rand(30), "pruneTo": 13})
+    if thorough:
+        out.append({"name": "all-empty-12", "txs": [0] * 12})
+        out.append({"name": "random-58", "txs": rand(58)})
+        for i in range(3):
+            out.append({"name": "random-%d" % i, "txs": rand(rnd.randint(25, 40))})
+        out.append({"name": "pruned-aligned-40", "txs": rand(40), "pruneTo": 20})
+    return out
+
+
+def enum_part(ctx, binary, thorough):
+    sh = shapes(ctx.seed, thorough)
+    res = ctx.run_engine(binary, "TestMigrationEnum", {"shapes": sh, "pairs": thorough}, timeout=2400)
+    ctx.absorb(res, "migration", "TestMigrationEnum")
+    ctx.coverage["enum_shapes"] = [s["name"] for s in sh]
+    ctx.coverage["enum_interrupt_restart_sequences"] = res.get("replayed", 0)
+
+
 def run(ctx):
     binary = ctx.build_engine("migration")
     if ctx.replay:
@@ -99,6 +175,8 @@ def run(ctx):
 
     thorough = not ctx.quick()
     runner_part(ctx, binary, thorough)
+    blocktx_part(ctx, binary, thorough)
+    enum_part(ctx, binary, thorough)
     ctx.assumptions += [
         "a single Batch.Write / Put / DeleteRange is atomic and durable (C15 examines the backends)",
         "a crash is modelled as: the k-th durable mutation is applied and no later operation reaches the store",
